@@ -132,7 +132,8 @@ class TimestampConverter(NullConverter):
 
     @staticmethod
     def to_xml(py_value) -> str:
-        return str(int(py_value * 1000))
+        # round to the nearest millisecond; int() truncates and e.g. turns 1.001 (read from '1001') into '1000'
+        return str(round(py_value * 1000))
 
     @staticmethod
     def check_valid(py_value):
